@@ -28,6 +28,7 @@ import seaborn as sns  # type: ignore[import]
 from ipywidgets import fixed, interact  # type: ignore[import]
 
 from black_it.calibrator import Calibrator
+from black_it.schedulers.base import BaseScheduler
 
 if TYPE_CHECKING:
     import os
@@ -48,6 +49,10 @@ def _get_samplers_id_table(saving_folder: str | os.PathLike) -> dict[str, int]:
     output_file = Path(saving_folder) / "scheduler_pickled.pickle"
     with output_file.open("rb") as f:
         method_list = pickle.load(f)  # nosec B301
+
+    # current checkpoints hold the scheduler, older ones the plain list of samplers
+    if isinstance(method_list, BaseScheduler):
+        method_list = list(method_list.samplers)
 
     return Calibrator._construct_samplers_id_table(method_list)  # noqa: SLF001
 
